@@ -118,6 +118,16 @@ pub fn user_err(s: &str) -> UserErr {
     USER_ERR_LOG.with(|l| l.borrow_mut().push(s.to_string()));
     UserErr(s.to_string())
 }
+/// a generic user error type (its parameter is the enum's own type parameter)
+#[derive(Debug, Clone, PartialEq)]
+pub struct GenErr<T>(pub String, pub core::marker::PhantomData<T>);
+pub fn gen_err<T>(s: &str) -> GenErr<T> {
+    USER_ERR_LOG.with(|l| l.borrow_mut().push(s.to_string()));
+    GenErr(s.to_string(), core::marker::PhantomData)
+}
+impl<T> ErrProbe for GenErr<T> {
+    fn enc(&self) -> (&'static str, Option<String>) { ("ue", Some(self.0.clone())) }
+}
 pub fn user_err_calls() -> usize { USER_ERR_LOG.with(|l| l.borrow().len()) }
 pub fn user_err_take() -> Vec<String> { USER_ERR_LOG.with(|l| std::mem::take(&mut *l.borrow_mut())) }
 
